@@ -139,6 +139,31 @@ class Line:
         for u in self.units:
             u.calc_position(k / 1024.0)
 
+    def feed(self, j, code, start, params):
+        """the same unicast message sent one byte at a time through the real System.parse, handled
+        as simulators.server.ListenHandler._handle does (exceptions are swallowed, booleans are not
+        sent, non-empty strings are sent).  returns (replies, errors): the list of replies (lists of
+        code points) and the exceptions raised on the way"""
+        from simulators import utils
+        frame = chr(start) + chr(((len(params) + 1) << 5) | self.idxs[j]) + chr(code)
+        frame += ''.join(chr(p) for p in params)
+        frame += utils.checksum(frame)
+        replies, errors = [], []
+        for ch in frame:
+            try:
+                r = self.sys.parse(ch)
+            except WouldBlock:
+                errors.append('block')
+                continue
+            except Exception as ex:   # noqa
+                errors.append('%s: %s' % (type(ex).__name__, ex))
+                continue
+            if isinstance(r, bool):
+                continue
+            if r and isinstance(r, str):
+                replies.append([ord(c) for c in r])
+        return replies, errors
+
     def snapshots(self):
         return [self.snapshot(j) for j in range(len(self.units))]
 
@@ -523,3 +548,23 @@ def rounded_displacement(freq, resolution, k):
     if 2 * r > 1024:
         return q + 1
     return q if q % 2 == 0 else q + 1
+
+
+def check_answer(reply, start, idx, npayload):
+    """None when `reply` (list of code points) is a well-formed answer frame to a query that started
+    with `start` and was addressed to unit `idx`, carrying `npayload` payload bytes; else what is wrong.
+    On success the payload is returned through the second component."""
+    head = 3 if start == 0xFC else 2
+    if any(not 0 <= c <= 255 for c in reply):
+        return 'element outside 0..255', None
+    if len(reply) != head + npayload + 1:
+        return 'length %d, expected %d' % (len(reply), head + npayload + 1), None
+    if reply[0] != 6:
+        return 'does not start with ACK', None
+    if reply[1] != start:
+        return 'start byte %#x not echoed' % start, None
+    if start == 0xFC and reply[2] != ((npayload << 5) | idx):
+        return 'length/address byte %#x, expected %#x' % (reply[2], (npayload << 5) | idx), None
+    if reply[-1] != 255 - sum(reply[:-1]) % 256:
+        return 'wrong checksum', None
+    return None, reply[head:-1]
